@@ -69,6 +69,7 @@ func checkC05(c *Ctx) {
 		// strict mode: error return mentioning monophyly  <=>  !monophyletic && strict
 		c.strictGuard(fi)
 		c.uniqueRootBranch(fi)
+		c.rerootOutgroupDetails(fi)
 		if lca := c.Func("tree", "Tree", "LeastCommonAncestorRecur"); lca != nil {
 			c.accumAgree("ACCUM", lca, "a non-monophyletic outgroup is refused in strict mode (whatever the order of the children)")
 		}
@@ -139,6 +140,25 @@ func checkC05(c *Ctx) {
 		c.Control("SENTINEL", hit, "fixture.C05ZeroAsAbsent tests `length > 0` before transferring the length")
 	}
 
+	// ---- both re-rooting operations first remove a former bifurcating root
+	c.Decides("PATH: RerootOutGroup and RerootMidPoint call UnRoot unconditionally (no path condition) before anything else is computed: the former degree-2 root never stays in the tree as a single-child node")
+	for _, fn := range []string{"RerootOutGroup", "RerootMidPoint"} {
+		fi := c.Func("tree", "Tree", fn)
+		if fi == nil {
+			continue
+		}
+		info := fi.Pkg.TypesInfo
+		good := false
+		var at token.Pos = fi.Decl.Pos()
+		for _, call := range callsIn(fi.Decl.Body, false) {
+			if isRepoFunc(calleeOf(info, call), "tree", "Tree", "UnRoot") {
+				if conds, okc := c.pathConds(info, fi.Decl.Body, call, false); okc && len(conds) == 0 {
+					good, at = true, call.Pos()
+				}
+			}
+		}
+		c.Check(good, "PATH", "tree.Tree."+fn+"/unroots-first", at, "UnRoot is called unconditionally", fn+" does not call UnRoot unconditionally: on a rooted input the former root stays behind as a node with a single child").Clause = "the two root branches of a rooted tree counting as one branch"
+	}
 	// ---- ReorderEdges / Reroot
 	c.reorderRules()
 
